@@ -18,6 +18,7 @@ import (
 	"net/http"
 	"net/http/httptest"
 	"strconv"
+	"strings"
 	"sync"
 	"sync/atomic"
 	"time"
@@ -274,7 +275,15 @@ func runPL(c Case, ctl *sched.Ctl, mon *monitor, wg *sync.WaitGroup) {
 		if v := atomic.AddInt32(&live, 1); int(v) > c.N {
 			mon.report("pool: %d live resources, limit %d", v, c.N)
 		}
-		ctl.Log(0, "create", 0, id)
+		// create() is called by Pool.Get with the pool lock held: the caller parks here, inside
+		// the critical section; everybody else must block on the lock meanwhile
+		a := ctl.Actor()
+		if a < 0 {
+			a = 0
+		}
+		op := ctl.CurOp(a)
+		ctl.Log(a, "create", op, id)
+		ctl.Gate(a, "create", op)
 		return id
 	}
 	destroy := func(x any) {
@@ -282,9 +291,18 @@ func runPL(c Case, ctl *sched.Ctl, mon *monitor, wg *sync.WaitGroup) {
 		if atomic.LoadInt32(flag(x.(int64))) != 0 {
 			mon.report("pool: destroyed resource %d while held", x.(int64))
 		}
-		ctl.Log(0, "destroy", 0, x.(int64))
+		a := ctl.Actor()
+		if a < 0 {
+			a = 0
+		}
+		ctl.Log(a, "destroy", ctl.CurOp(a), x.(int64))
 	}
 	pool := syncx.NewPool(c.N, create, destroy, syncx.WithMaxAge(time.Duration(c.MaxAge)))
+	// a goroutine waiting for the pool's mutex while the lock holder is parked inside create()
+	// is blocked by the library, not about to run
+	ctl.MutexBlocked = func(stack string) bool {
+		return strings.Contains(stack, "syncx.(*Pool).") && ctl.AnyParked("create")
+	}
 	for tid, script := range c.Scripts {
 		tid, script := tid, script
 		wg.Add(1)
